@@ -339,6 +339,16 @@ def directed():
         for st in (2, -1, -2, 3):
             yield mk_case("float64", vals, "slice", slice(None, None, st))
     yield mk_case("float32", [1000.0, 1000.001, 1000.001, 1000.002, 1000.0], "slice", slice(None, None, -1))
+    # many distinct runs, negative steps of a few hundred (a multiple of the mean run length), steps of exactly +-len, +-(len-1), +-(len+1)
+    for L_ in (200, 1201):
+        vals_ = [(i * 37) % 101 + (i % 2) * 1000 for i in range(L_)]
+        for st_ in (-300, -250, -65, -64, 65, 130, -L_, L_, -(L_ - 1), L_ - 1, -(L_ + 1), -199, -7):
+            for a_, b_ in ((None, None), (L_ - 2, 3), (None, 10), (L_ // 2, None)):
+                yield mk_case("int32", vals_, "slice", slice(a_, b_, st_))
+    # tens of thousands of look-ups in one unsorted position vector
+    big_idx = [((i * 7919) % 600) - 300 for i in range(60000)]
+    yield mk_case("int64", [(i * 5) % 17 for i in range(300)], "array", big_idx, idtype="int64")
+    yield mk_case("float64", [float((i * 5) % 17) for i in range(300)], "list", big_idx[:52000])
     # infinities / huge values of opposite sign that become neighbours only after striding
     inf = float("inf")
     for dtype, vals in (("float64", [inf, 1.0, inf, 2.0, inf]), ("float64", [-inf, 0.0, -inf, -inf, 5.0, -inf]), ("float32", [3e38, 1.0, -3e38, 1.0, 3e38]), ("float64", [1.7e308, 0.5, -1.7e308, 0.5, 1.7e308]),
